@@ -35,6 +35,7 @@ type Obligation struct {
 	NAssert int
 	NDecl   int
 	NValueQ int
+	Extra   []string // extra assumptions for this obligation only (clause-level lemma use)
 }
 
 type VC struct {
@@ -60,6 +61,8 @@ type VC struct {
 	svSorts  map[string]string
 	replayFrame *Frame
 	smallHints []string
+	opaque   map[string]bool
+	lemmaTerms map[string]string
 	heapTypes map[types.Type]string
 	arrTypes map[string]types.Type
 	mapTypes map[string]*types.Map
@@ -147,6 +150,7 @@ func (vc *VC) prelude() {
 	vc.decl("s:Iface", "(declare-datatypes ((Iface 0)) (((mk-iface (ityp Int) (ival Int)))))")
 	if !vc.isBV() {
 		vc.assume("(forall ((s Str)) (! (and (<= 0 (slen s)) (<= (slen s) 281474976710656)) :pattern ((slen s))))")
+		vc.assume("(forall ((s Str) (i Int)) (! (and (<= 0 (sat s i)) (<= (sat s i) 255)) :pattern ((sat s i))))")
 		// uninterpreted bit operations for int mode (exact cases are rewritten before these are used)
 		for _, f := range []string{"band", "bor", "bxor", "bshl", "bshr"} {
 			vc.decl("f:"+f, fmt.Sprintf("(declare-fun %s (Int Int) Int)", f))
@@ -572,6 +576,9 @@ func (vc *VC) script(o *Obligation, logic string) string {
 		sb.WriteString("(assert ")
 		sb.WriteString(a)
 		sb.WriteString(")\n")
+	}
+	for _, x := range o.Extra {
+		sb.WriteString("(assert " + x + ")\n")
 	}
 	if o.MustFail {
 		sb.WriteString("(assert " + o.Guard + ")\n")
